@@ -786,6 +786,18 @@ def enumerate_cases(tier):
                         {"user": f"{mk_user(1)} {USER_TEXT['llm']}", "route": "llm", "body": "closing answer", "in": [], "out": []},
                     ]
                     yield {"config": cfg, "turns": turns, "place": [[0, k, spec]], "api": "sync"}
+    # the shipped self-check rails: hostile answers at the yes/no positions (k = 0 input check, last call output check)
+    checks = ["empty", "whitespace", "check-maybe", "check-yes-bang", "check-no-yes", "jinja-expr", "nul", "long-line", "non-ascii", "lone-quote"]
+    for mode in ("three", "general") if tier == "quick" else ("three", "general", "multi"):
+        for exc in (False, True):
+            cfg = make_cfg(mode, self_rails=True, exc=exc)
+            for k in (0, 2, 3) if mode != "general" else (0, 2):
+                for c in checks:
+                    turns = [
+                        {"user": f"{mk_user(0)} {USER_TEXT['llm']}", "route": "llm", "body": "first answer", "in": ["accept"], "out": ["accept"]},
+                        {"user": f"{mk_user(1)} {USER_TEXT['llm']}", "route": "llm", "body": "closing answer", "in": ["accept"], "out": ["accept"]},
+                    ]
+                    yield {"config": cfg, "turns": turns, "place": [[0, k, raw_spec(c)]], "api": "sync"}
 
 
 # ------------------------------------------------------------------------------------------------
@@ -885,10 +897,11 @@ def _check(case, obs):
         keys.add(key)
         labels.append(f"reached:{cfg['mode']}:{r['task']}")
         labels.append(f"class:{r['kind']}")
-    placed = len(case.get("place", []))
-    if placed > len(keys):
+    missed = len(case.get("place", [])) - len([r for r in sess.reached if r["c"] is not None])
+    if missed > 0:
         labels.append("placement-not-reached")
-        counters["placements-not-reached"] = placed - len([r for r in sess.reached if r["c"] is not None])
+        counters["placements-not-reached"] = missed
+    counters["placements-reached"] = len([r for r in sess.reached if r["c"] is not None])
     nt = bool(keys)
     view = None
     if nt:
